@@ -32,7 +32,8 @@ def mst_colour_keys(repo: Repo, rep: Report, rule: str) -> None:
         st = n
         while not isinstance(st, ast.stmt):
             st = pmm[st]
-        guarded = how == "setdefault" or any(isinstance(t, ast.Compare) and isinstance(t.ops[0], ast.NotIn) and norm(t.comparators[0]) == "self._edge_wire_colors" and norm(t.left) == norm(key) and pol
+        guarded = how == "setdefault" or any(isinstance(t, ast.Compare) and len(t.ops) == 1 and norm(t.comparators[0]) == "self._edge_wire_colors" and norm(t.left) == norm(key)
+                                            and ((isinstance(t.ops[0], ast.NotIn) and pol) or (isinstance(t.ops[0], ast.In) and not pol))
                                             for t, pol in guard_chain(mst, st, pmm))
         rep.check(guarded, rule, f"{mst.short}: colour under position-derived key `{ckey(mst, key)}` never replaces an existing entry",
                   "guarded by `not in` / setdefault" if guarded else
